@@ -70,7 +70,10 @@ impl Ctx {
         let plans = crate::c12::Plans::new(&cases);
         Ctx { certs, signer, plans, cases, seed, thorough }
     }
-    fn cert(&self, carrier: &str) -> &SignedSecretKey { self.certs.get(carrier).unwrap_or_else(|| &self.certs["pkesk_x25519"]) }
+    fn cert(&self, carrier: &str) -> &SignedSecretKey {
+        let c = match carrier { "pkesk6_rsa" => "pkesk_rsa", "pkesk6_ecdh_p256" => "pkesk_ecdh_p256", c => c };
+        self.certs.get(c).unwrap_or_else(|| &self.certs["pkesk_x25519"])
+    }
 }
 
 // ---------------------------------------------------------------------------------------------------------------
@@ -92,6 +95,20 @@ fn s2k_key(salt: &[u8; 8], pw: &[u8], keylen: usize) -> Vec<u8> {
     key.truncate(keylen);
     key
 }
+/// version and recipient fields of a PKESK: v3 names the key id, v6 the key version and fingerprint
+fn recipient_head<K: KeyDetails>(carrier: &str, sub: &K) -> Vec<u8> {
+    if carrier.starts_with("pkesk6_") {
+        let fp = sub.fingerprint();
+        let mut b = vec![6u8, 1 + fp.as_bytes().len() as u8, if fp.as_bytes().len() == 32 { 6 } else { 4 }];
+        b.extend_from_slice(fp.as_bytes());
+        b
+    } else {
+        let mut b = vec![3u8];
+        b.extend_from_slice(sub.legacy_key_id().as_ref());
+        b
+    }
+}
+
 fn s2k_spec(salt: &[u8; 8]) -> Vec<u8> { let mut v = vec![3u8, 8]; v.extend_from_slice(salt); v.push(0); v }
 
 /// ESK packet for `carrier` whose decrypted content is exactly `plain` (for key-wrap carriers `plain` is the wrap input).
@@ -119,7 +136,7 @@ fn esk(ctx: &Ctx, carrier: &str, plain: &[u8], v3_alg: u8, seed: u64) -> Result<
             b.extend(prim::aead(2, 7, &kek, &nonce, &info, plain, false)?);
             Ok(pkt(3, &b))
         }
-        "pkesk_rsa" => {
+        "pkesk_rsa" | "pkesk6_rsa" => {
             use rsa::traits::PublicKeyParts;
             let _ = 0u8;
             let sub = ctx.cert(carrier).secret_subkeys[0].public_key();
@@ -133,17 +150,16 @@ fn esk(ctx: &Ctx, carrier: &str, plain: &[u8], v3_alg: u8, seed: u64) -> Result<
             let pk = rsa::RsaPublicKey::new(n, e).map_err(|e| e.to_string())?;
             let _ = pk.size();
             let c = pk.encrypt(&mut rng(seed ^ 3), rsa::Pkcs1v15Encrypt, plain).map_err(|e| e.to_string())?;
-            let mut b = vec![3u8];
-            b.extend_from_slice(sub.legacy_key_id().as_ref());
+            let mut b = recipient_head(carrier, &sub);
             b.push(1);
             b.extend(mpi(&c));
             Ok(pkt(1, &b))
         }
-        c if c.starts_with("pkesk_ecdh") => {
+        c if c.starts_with("pkesk_ecdh") || c == "pkesk6_ecdh_p256" => {
             let cert = ctx.cert(carrier);
             let sub = cert.secret_subkeys[0].public_key();
             let pubb = sub.to_bytes().map_err(|e| e.to_string())?;
-            let curve = match c { "pkesk_ecdh_cv25519" => "Curve25519", "pkesk_ecdh_p256" => "P256", "pkesk_ecdh_p384" => "P384", _ => "P521" };
+            let curve = match c { "pkesk_ecdh_cv25519" => "Curve25519", "pkesk_ecdh_p256" | "pkesk6_ecdh_p256" => "P256", "pkesk_ecdh_p384" => "P384", _ => "P521" };
             let (_oid, point, hash_id, cipher_id) = ecdh_params(&pubb, false)?;
             let plan = &ctx.cases.iter().find(|x| x["kind"] == "ecdh" && x["curve"] == curve && x["hash"] == hash_id as u64 && x["cipher"] == cipher_id as u64 && x["keyver"] == 4).ok_or("no ecdh plan")?["plan"];
             let width = plan["zlen"].as_u64().unwrap() as usize;
@@ -158,8 +174,7 @@ fn esk(ctx: &Ctx, carrier: &str, plain: &[u8], v3_alg: u8, seed: u64) -> Result<
             };
             let kek = ecdh_kek(plan, &z, sub.fingerprint().as_bytes(), hash_id)?;
             let wrapped = prim::aes_kw_wrap(&kek, plain)?;
-            let mut b = vec![3u8];
-            b.extend_from_slice(sub.legacy_key_id().as_ref());
+            let mut b = recipient_head(carrier, &sub);
             b.push(18);
             b.extend(mpi(&eph));
             b.push(wrapped.len() as u8);
@@ -203,6 +218,15 @@ fn session_plain(carrier: &str, alg: u8, key: &[u8]) -> Vec<u8> {
         "skesk_v6" | "skesk_v5" => key.to_vec(),
         "skesk_v4" => { let mut m = vec![alg]; m.extend_from_slice(key); m }
         "pkesk_x25519" | "pkesk_x448" => key.to_vec(),
+        // v6: no algorithm octet
+        "pkesk6_rsa" => { let mut m = key.to_vec(); m.extend_from_slice(&prim::sum16(key)); m }
+        "pkesk6_ecdh_p256" => {
+            let mut m = key.to_vec();
+            m.extend_from_slice(&prim::sum16(key));
+            let n = 8 - m.len() % 8;
+            m.extend(std::iter::repeat(n as u8).take(n));
+            m
+        }
         c if c.starts_with("pkesk_ecdh") => {
             let mut m = vec![alg];
             m.extend_from_slice(key);
@@ -579,7 +603,7 @@ fn base_key_bytes(ctx: &Ctx, prot: &str, seed: u64) -> Vec<Vec<u8>> {
     let mut names: Vec<&&str> = ctx.certs.keys().collect();
     names.sort();
     for name in names {
-        if !ctx.thorough && !["pkesk_rsa", "pkesk_ecdh_cv25519", "pkesk_x448", "pkesk_ecdh_p256"].contains(name) { continue; }
+        if !ctx.thorough && !["pkesk_rsa", "pkesk_ecdh_cv25519", "pkesk_x448", "pkesk_ecdh_p256", "pkesk6_rsa", "pkesk6_ecdh_p256"].contains(name) { continue; }
         let cert = &ctx.certs[*name];
         let mut c = cert.clone();
         let pw = Password::from(PW);
@@ -706,7 +730,7 @@ fn variants_inner(ctx: &Ctx, fam: &Value, field: &str, kind: &str, target: &str,
             out.extend(octet_sweep(&base, 0, r, th).into_iter().map(Art::Message));
         }
         ("message", "session_plaintext") => {
-            let wrap_kw = carrier.starts_with("pkesk_ecdh") || carrier.starts_with("pkesk_x");
+            let wrap_kw = carrier.starts_with("pkesk_ecdh") || carrier.starts_with("pkesk_x") || carrier == "pkesk6_ecdh_p256";
             let mut plains: Vec<(Vec<u8>, u8)> = Vec::new();
             match field {
                 "algorithm_octet" => { for a in 0..=255u8 { for kl in [16usize, 32] { plains.push((session_plain(carrier, a, &rb(seed ^ a as u64, kl)), a)); } } }
@@ -720,10 +744,10 @@ fn variants_inner(ctx: &Ctx, fam: &Value, field: &str, kind: &str, target: &str,
             }
             for (i, (p, a)) in plains.into_iter().enumerate() {
                 if wrap_kw && (p.len() % 8 != 0 || p.len() < 16) { continue; }
-                if carrier == "pkesk_rsa" && p.len() > 200 { continue; }
+                if carrier.ends_with("_rsa") && p.len() > 200 { continue; }
                 let Ok(mut m) = esk(ctx, carrier, &p, a, seed ^ i as u64) else { continue };
                 // the data packet is encrypted under the key the recipient would derive when lengths agree, else under some key
-                let key16: Vec<u8> = p.iter().skip(if carrier.starts_with("skesk_v6") || carrier.starts_with("skesk_v5") || carrier.starts_with("pkesk_x") { 0 } else { 1 }).take(16).cloned().chain(std::iter::repeat(0)).take(16).collect();
+                let key16: Vec<u8> = p.iter().skip(if carrier.starts_with("skesk_v6") || carrier.starts_with("skesk_v5") || carrier.starts_with("pkesk_x") || carrier.starts_with("pkesk6_") { 0 } else { 1 }).take(16).cloned().chain(std::iter::repeat(0)).take(16).collect();
                 m.extend(container(cont, &key16, &lit, seed).unwrap_or_default());
                 out.push(Art::Message(m));
             }
